@@ -122,12 +122,13 @@ CHECKS = {
         "assumptions": COMMON_ASSUMPTIONS + ["schedules are explored at the instrumented synchronisation points and datastore operations; code between two points runs atomically"],
     },
     "C04": {
-        "pkg": ".",
-        "test": "TestVerifC04",
         "level": "exploration",
-        "proc_timeout": "60m",
-        "quick": {"procs": 32, "checks_per_proc": 300},
-        "thorough": {"procs": 64, "checks_per_proc": 1800},
+        "parts": [
+            {"pkg": ".", "test": "TestVerifC04", "proc_timeout": "60m",
+             "quick": {"procs": 32, "checks_per_proc": 300}, "thorough": {"procs": 64, "checks_per_proc": 1800}},
+            {"pkg": ".", "test": "TestVerifC04C", "proc_timeout": "60m", "instrument": ["store_metadata_index.go"],
+             "quick": {"procs": 16, "checks_per_proc": 100}, "thorough": {"procs": 32, "checks_per_proc": 1500}},
+        ],
         "rule": "one case = (2 of 3 cases) 2-3 real replicas (devices of one account on the account group) performing up to 15 seeded metadata "
                 "operations (7 contact operations on 2 contacts, contact-request switch/seed, group join/leave, credentials), or (1 of 3) "
                 "2-4 devices of different accounts (optionally two of one account) on a multi-member or contact group performing up to 15 "
@@ -138,7 +139,8 @@ CHECKS = {
                 "fixpoint. non-trivial = at least one network delivery happened under simulator control; distinct = distinct hash "
                 "of the event trace (operations, deliveries, faults in abstract names).",
         "required_probes": ["causally_ordered_history", "concurrent_history", "reindex", "reopen_same_entries",
-                            "multimember_group_scenario", "contact_group_scenario", "group_fold_checked", "group_admin_claimed", "group_several_devices"],
+                            "multimember_group_scenario", "contact_group_scenario", "group_fold_checked", "group_admin_claimed", "group_several_devices",
+                            "overlapping_index_passes_checked"],
         "assumptions": COMMON_ASSUMPTIONS + ["each reaction of go-orbit-db/go-ipfs-log goroutines between two simulator events runs to quiescence (atomic step)"],
     },
     "C07": {
@@ -250,17 +252,19 @@ CHECKS = {
         "assumptions": COMMON_ASSUMPTIONS,
     },
     "C11": {
-        "pkg": "pkg/secretstore",
-        "test": "TestVerifC11",
         "level": "exploration",
-        "quick": {"procs": 32, "checks_per_proc": 150},
-        "thorough": {"procs": 64, "checks_per_proc": 4000},
+        "parts": [
+            {"pkg": "pkg/secretstore", "test": "TestVerifC11",
+             "quick": {"procs": 32, "checks_per_proc": 150}, "thorough": {"procs": 64, "checks_per_proc": 4000}},
+            {"pkg": "pkg/secretstore", "test": "TestVerifC11C", "instrument": ["pkg/secretstore"],
+             "quick": {"procs": 16, "checks_per_proc": 400}, "thorough": {"procs": 32, "checks_per_proc": 6000}},
+        ],
         "rule": "one case = 2-3 accounts growing to several devices through export/import, with a seeded sequence of first uses of "
                 "derived keys in both orders, restarts, loss of the recomputable key-cache class on SimDisk, imports refused on used "
                 "stores and malformed imports (equal keys, non-Ed25519, garbage, truncated, empty); after EVERY step the cross-store "
                 "invariants are evaluated over all stores. non-trivial = an import, a restart, a cache loss or a refused import "
                 "occurred; distinct = distinct hash of the step trace.",
-        "required_probes": [],
+        "required_probes": ["concurrent_first_use_checked"],
         "assumptions": COMMON_ASSUMPTIONS,
     },
     "C17": {
